@@ -187,16 +187,16 @@ class HubRun:
         if k == "bye":
             return [cb.frame("Bye")]
         if k == "get":
-            return [cb.frame({"Get": {"path": op["path"]}})]
+            return [cb.frame({"Get": {"path": op.get("wire", op["path"])}})]
         if k == "delete":
-            return [cb.frame({"Delete": {"path": op["path"], "expected": self._hash(op["exp"]) if op["exp"] else None}})]
+            return [cb.frame({"Delete": {"path": op.get("wire", op["path"]), "expected": self._hash(op["exp"]) if op["exp"] else None}})]
         if k == "put":
             data = self.contents[op["c"]]
             declared = self._hash(op["c"])
             if not op.get("hashok", True):
                 data = data[:-1] + bytes([data[-1] ^ 0x55])      # the streamed bytes do not match the declared hash
             ln = len(data) + op.get("len_delta", 0)
-            fr = cb.frame({"Put": {"path": op["path"], "expected": self._hash(op["exp"]) if op["exp"] else None, "len": ln, "hash": declared}})
+            fr = cb.frame({"Put": {"path": op.get("wire", op["path"]), "expected": self._hash(op["exp"]) if op["exp"] else None, "len": ln, "hash": declared}})
             body = data if op.get("len_delta", 0) >= 0 else data     # short declared length: the server takes only `len` bytes
             n = max(1, op.get("pieces", 1))
             step = max(1, (len(body) + n - 1) // n)
